@@ -1,5 +1,5 @@
 """C08 - garbage collection is complete and confined."""
-from harness import cli_hist, core, repo_hist
+from harness import cli_hist, core, remote_hist, repo_hist
 from harness.core import Report
 
 RULE = ('cases = multi-user histories incl. interrupted snapshots (orphaned chunks), deletes of own snapshots, refused deletes, cleans, over '
@@ -69,7 +69,7 @@ def s3_gc_probe(ctx, rep):
                                'replay': {'probe': 's3_gc'}})
 
 
-CLI_MINE = ('exception', 'hang', 'snapshot_unreadable', 'snapshot_objects', 'snapshot_name', 'gc_incomplete', 'gc_overreach', 'config_touched', 'unknown_object', 'refused_delete_mutated')
+CLI_MINE = ('exception', 'hang', 'snapshot_unreadable', 'snapshot_objects', 'snapshot_name', 'gc_incomplete', 'gc_overreach', 'config_touched', 'unknown_object', 'refused_delete_mutated', 'referenced_chunk_missing', 'snapshot_not_listed')
 
 
 def _run(ctx, n, nops, rep, concurrent=None):
@@ -80,6 +80,8 @@ def _run(ctx, n, nops, rep, concurrent=None):
     rep.violations[:] = [v for v in rep.violations if v['signature']['kind'] in MINE]
     # the same property through the tool as a user runs it: fresh `python -m replicat` processes, a repository on disk, real faults
     cli_hist.run_scenarios(ctx, rep, {'plain': ctx.scale(4, 40), 'oserror': ctx.scale(4, 40)}, CLI_MINE)
+    # and over the remote adapters (B2 by bucket name and by bucket id, S3-compatible) against in-memory fake services
+    remote_hist.remote_probe(ctx, rep, ('exception', 'gc_incomplete', 'gc_overreach', 'referenced_chunk_missing'))
 
 
 def run(ctx) -> Report:
@@ -99,6 +101,12 @@ def replay(ctx, obj):
     rc = cli_hist.replay_cli(ctx, obj, CLI_MINE)
     if rc is not None:
         return rc
+    if (obj.get('replay') or {}).get('probe') == 'remote':
+        rep = Report(rule=RULE)
+        remote_hist.remote_probe(ctx, rep, ('exception', 'gc_incomplete', 'gc_overreach', 'referenced_chunk_missing'), deployments=[obj['replay']['deployment']])
+        for v in rep.violations:
+            print('VIOLATION-REPRODUCED', v['what'])
+        return 1 if rep.violations else 0
     rep = Report(rule=RULE)
     seed = (obj.get('replay') or {}).get('seed')
     if seed is None:
